@@ -499,6 +499,10 @@ class Client(base_client.BaseClient):
                 self.queue.put(None)
                 break
             for pkt in p.packets:
+                if self.state != 'connected':
+                    # the connection was ended while this response was in
+                    # flight, or by an earlier packet of it
+                    break
                 self._receive_packet(pkt)
 
         if self.write_loop_task:  # pragma: no branch
@@ -549,6 +553,9 @@ class Client(base_client.BaseClient):
                 self.logger.info(
                     'Unexpected error decoding packet: "%s", aborting', str(e))
                 self.queue.put(None)
+                break
+            if self.state != 'connected':
+                # the connection was ended while waiting for this frame
                 break
             self._receive_packet(pkt)
 
